@@ -71,7 +71,7 @@ def run(ctx, replay=None):
     out, st = ctx.model_check("HierGen", "HierGen" if q else "HierGen_thorough", env={"OUT": gen}, workers=1)
     counts = [int(x) for x in out.split('<<"COUNTS", ')[1].split(">>")[0].split(", ")]
     ncase = {"route": counts[0], "chain": counts[1], "pf": counts[2]}
-    segs = ["plain", "same", "special"]
+    segs = ["plain", "same", "special", "prefix"]
     files = []
     total = 0
     universes = []
